@@ -16,7 +16,7 @@ def probe(EoN, chk, entry="_ListDict_"):
     for k in range(30):
         L.insert(("light", k), weight=1.0)
     n = 0
-    for R in (1, 5, 50, 99, 100, 101, 150, 300):
+    for R in (1, 5, 50, 99, 100, 101, 150, 300, 999, 1000, 1001, 1500):
         state = {"rounds": 0}
 
         def decider(kind, info, pop, probs):
@@ -30,7 +30,7 @@ def probe(EoN, chk, entry="_ListDict_"):
             return 0
         for fn_name in ("choose_random", "random_removal"):
             state["rounds"] = 0
-            leaf = run_scripted(lambda: getattr(L, fn_name)(), [], fold=False, decider=decider, max_branches=2000)
+            leaf = run_scripted(lambda: getattr(L, fn_name)(), [], fold=False, decider=decider, max_branches=4000)
             n += 1
             chk.cov["evaluations"] += 1
             if fn_name == "random_removal" and leaf.error is None and leaf.result == "heavy":
